@@ -7,6 +7,18 @@ props = [json.loads(l) for l in open('/verif/properties.jsonl')]
 ids = [p['id'] for p in props]
 
 CHECKS = {
+ "C01": dict(cat="translation_validation", sec="6 C01",
+   text="the program space is enumerated by TLC from the matching / signature / hook / notation models; every program is run through the tool and every successfully generated file is judged by the Go toolchain itself: gofmt -l must be silent and go build of the package (ordinary build: setup file excluded by its tag, output included) must report no error; diagnostics are attributed to functions by position and confirmed in isolation",
+   note="judge = gofmt and the Go compiler; generic types, cgo and third-party dependencies are outside the alphabet",
+   tech="TLC-enumerated program space from the TLA+ models; translation validation of each output by gofmt and go build"),
+ "C04": dict(cat="model_checking", sec="6 C04",
+   text="spec/MatchField.tla walks the matching ladder (candidate selection, slice rule, assignable, stringer, typecast, member-wise descent) over all pairs of a 36-type alphabet whose assignability/convertibility tables are generated from go/types; TLC checks OptInOnly/NoneMeansNone/NameRule/AssignableTaken on the model and prints each configuration with its set of permitted outcomes; each is concretised, run through the tool and the projected outcome class must be in the set",
+   note="trusts TLC, go/types (type tables) and the syntactic projector of generated bodies; choice among ambiguous same-named candidates is not judged (the property is silent)",
+   tech="TLA+ ladder model checked by TLC; TLC-enumerated cases replayed through the real tool and compared on projected function bodies (spec->code case replay)"),
+ "C16": dict(cat="model_checking", sec="6 C16",
+   text="static side: every slice pair of the alphabet for which MatchField.tla permits a copy (identical, assignable, convertible element types, defined slice types) must be emitted as a permitted fresh-copy shape (SliceNeverAssigned on the model)",
+   note="the run-time side (aliasing, nil stays nil) is decided by trace validation of executed generated functions (GenExec) once registered; until then the shape of the emitted statement is what is judged",
+   tech="TLA+ ladder model checked by TLC; emitted slice statements of TLC-enumerated cases compared with the permitted shapes"),
  "C12": dict(cat="model_checking", sec="6 C12",
    text="spec/CLI.tla models the files a run can see or touch; TLC checks Regenerated/ExitIgnoresOut/Idempotent on the model and enumerates every transition; every run transition from a state whose output path holds content (older output, truncated at a point, broken, ill-typed) is materialised and executed with the real binary next to its emptied twin; a crash sweep covers truncation offsets of the reference output; seeded TLC walks are replayed step by step",
    note="trusts TLC and the projection of the directory tree; reference bytes are the tool's own output on an empty path (the property's definition); thorough sweeps every byte offset",
